@@ -1961,12 +1961,26 @@ func (query *Query) exec() (result any, err error) {
 		}
 	}()
 	if query.dual {
-		rs, err := ExecSelect(query, query.from)
+		// the only row of `dual` passes through WHERE like any other row
+		from := make([]any, 0, len(query.from))
+		for _, current := range query.from {
+			if row, ok := current.(Map); ok {
+				isMatch, err := ExecWhere(query, row)
+				if err != nil {
+					return nil, err
+				}
+				if !isMatch {
+					continue
+				}
+			}
+			from = append(from, current)
+		}
+		rs, err := ExecSelect(query, from)
 		if err != nil {
 			return nil, err
 		}
 		if len(rs) == 0 {
-			return nil, nil
+			return []any{}, nil
 		}
 		return rs[0], nil
 	}
